@@ -367,3 +367,10 @@ func fullExpr(e ast.Expr) string {
 	_ = printer.Fprint(&buf, token.NewFileSet(), e)
 	return strings.Join(strings.Fields(buf.String()), " ")
 }
+
+// fullStmt prints a statement completely.
+func fullStmt(st ast.Stmt) string {
+	var buf bytes.Buffer
+	_ = printer.Fprint(&buf, token.NewFileSet(), st)
+	return strings.Join(strings.Fields(buf.String()), " ")
+}
